@@ -409,7 +409,7 @@ def independent_csv_check(path, t, long, fn, problems):
         rd = list(csv.DictReader(fh))
     if len(rd) != expected_rows(t, long):
         problems.append(f"csv has {len(rd)} rows, expected {expected_rows(t, long)}")
-    attrs = ["risk_basis", "country", "currency", "reinsurance_basis", "loss_definition", "per_occurrence_limit"]
+    core = {"period_start", "period_end", "evaluation_date", "prev_evaluation_date", "scenario", "field", "value"}
 
     def row_matches(r, c):
         if r["period_start"][:10] != c.period_start.isoformat() or r["period_end"][:10] != c.period_end.isoformat() \
@@ -418,7 +418,10 @@ def independent_csv_check(path, t, long, fn, problems):
         if "prev_evaluation_date" in r and r["prev_evaluation_date"][:10] != c.prev_evaluation_date.isoformat():
             return False
         flat = c.metadata.as_flat_dict()
-        for k, v in flat.items():
+        for k in r:
+            if k in core or k in fn:
+                continue
+            v = flat.get(k)
             cellv = r.get(k, "")
             if v is None:
                 if cellv != "":
@@ -441,12 +444,12 @@ def independent_csv_check(path, t, long, fn, problems):
             if long:
                 frows = [r for r in rows if r["field"] == f]
                 if len(want) > 1:
-                    frows.sort(key=lambda r: float(r["scenario"]))
+                    frows.sort(key=lambda r: float(r.get("scenario") or 0))
                 got = [float(r["value"]) for r in frows]
             else:
                 rr = list(rows)
                 if len(rr) > 1:
-                    rr.sort(key=lambda r: float(r["scenario"]))
+                    rr.sort(key=lambda r: float(r.get("scenario") or 0))
                 got = [float(r[f]) for r in rr if r.get(f, "") != ""]
             if got != want:
                 problems.append(f"independent csv reader: field {f} of cell {c.period_start}/{c.evaluation_date} "
@@ -542,16 +545,19 @@ def run_frame_case(ctx, t, rng, tmp, tag):
             write(path)
             back = read(path)
             check_back(back, None, what, merged)
-            independent_csv_check(path, t, is_long, fn, problems)
-            # the model's assumption: pandas hands bermuda the table that was written (up to int->float)
-            table_assumption(path, wdf if not is_long else ldf, problems, what)
         except ct.NotRepresentable:
             raise
         except Exception as ex:  # noqa: BLE001
             check_back(None, ex, what, merged)
+        try:
+            independent_csv_check(path, t, is_long, fn, problems)
+            # the model's assumption: pandas hands bermuda the table that was written (up to int->float)
+            table_assumption(path, wdf if not is_long else ldf, problems, what)
+        except Exception as ex:  # noqa: BLE001
+            problems.append(f"{what}: independent reader / table assumption machinery raised {type(ex).__name__}: {ex}")
     in_hyps = "true"
     rec = (f"(mkF {ct.ccells(t.cells)}\n  {cstrs(fn)} {cstrs(dn)} {cstrs(ln)}\n  {wtxt}\n  {ltxt}\n  {rw_txt}\n  {rl_txt}\n"
-           f"  {rlc_txt}\n  {cperm(pw)} {cperm(pl)} {in_hyps})")
+           f"  {rlc_txt}\n  {cstrs(sorted(set(dn) | set(ln)))} {cperm(pw)} {cperm(pl)} {in_hyps})")
     return rec, problems
 
 
@@ -646,6 +652,40 @@ def run_array_case(ctx, t, info, rng):
     return rec, problems
 
 
+def gcd_diffs(xs):
+    xs = sorted(set(xs))
+    g = 0
+    for a, b in zip(xs, xs[1:]):
+        g = math.gcd(g, b - a)
+    return g
+
+
+def matrix_class(t):
+    """None if the triangle lies inside the hypotheses of the Matrix theorem, 'single_eval' if the code
+    refuses it by design, else the finding class of the hypothesis it breaks."""
+    starts = [mid(c.period_start) for c in t]
+    nexts = [mid(c.period_end) + 1 for c in t]
+    lens = {mid(c.period_end) - mid(c.period_start) + 1 for c in t}
+    evs = {mid(c.evaluation_date) for c in t}
+    if len(evs) < 2:
+        return "single_eval"
+    er, dr = gcd_diffs(starts + nexts), gcd_diffs(evs)
+    if lens != {er}:
+        return {"kind": "matrix_period_gap"}
+    if dr % er and er % dr:
+        return {"kind": "matrix_resolutions_not_nested"}
+    if t.is_incremental:
+        step = min(er, dr)
+        origin = min(mid(c.evaluation_date) - mid(c.period_end) for c in t)
+        for c in t:
+            lag = mid(c.evaluation_date) - mid(c.period_end)
+            k = (lag - origin) // step
+            want = c.period_start - datetime.timedelta(days=1) if k == 0 else me(mid(c.period_end) + origin + (k - 1) * step)
+            if c.prev_evaluation_date != want:
+                return {"kind": "matrix_incremental_prev_from_empty_column"}
+    return None
+
+
 def run_matrix_case(ctx, t, info):
     _, _, _, _, mx = B()
     problems = []
@@ -668,19 +708,21 @@ def run_matrix_case(ctx, t, info):
     except Exception as ex:  # noqa: BLE001
         mtxt = f"(Err {ct.cerr(ex)})"
     btxt, back, ex = cresult_cells_fl(lambda: mx.matrix_to_triangle(mat))
-    single_eval = len(t.evaluation_dates) < 2
-    in_hyps = (not single_eval) and (not info["inc"] or info["layout"] == "rect")
+    cls = matrix_class(t)
+    single_eval = cls == "single_eval"
+    in_hyps = cls is None
+    info["class"] = cls
     if mat is None:
         if not single_eval:
             problems.append("triangle_to_matrix refused a month-aligned semi-regular triangle with >= 2 evaluation dates")
     elif ex is not None:
         problems.append(f"matrix_to_triangle raised {type(ex).__name__}: {str(ex)[:100]}")
-    elif in_hyps:
+    else:
         got, w = canon_tri(back), canon_tri(t)
         if got != w:
             diff = [x for x in w if x not in got][:1] + [x for x in got if x not in w][:1]
             problems.append(f"Matrix round trip differs ({len(got)} cells back, {len(w)} expected): {diff}")
-        if len(back.slices) != len(t.slices):
+        elif len(back.slices) != len(t.slices):
             problems.append(f"Matrix round trip: {len(back.slices)} slices back, {len(t.slices)} before")
     rec = f"(mkM {ct.ccells(t.cells)} {cstrs(fields)}\n  {mtxt}\n  {btxt} {'true' if in_hyps else 'false'})"
     return rec, problems
@@ -757,6 +799,23 @@ def matrix_roundtrip_problems(t):
     return []
 
 
+def array_default_problems(t):
+    """array frame round trip with the DEFAULT period_resolution (inferred from the first two periods)"""
+    _, _, _, arr, _ = B()
+    f = t.fields[0]
+    try:
+        with warnings.catch_warnings():
+            warnings.simplefilter("ignore")
+            back = arr.array_data_frame_to_triangle(arr.triangle_to_array_data_frame(t, f), f, metadata=t.cells[0].metadata)
+    except Exception as ex:  # noqa: BLE001
+        return [f"array frame with inferred period resolution raised {type(ex).__name__}: {str(ex)[:100]}"]
+    got, w = canon_tri(back), canon_tri(t)
+    if got != w:
+        diff = [x for x in w if x not in got][:1] + [x for x in got if x not in w][:1]
+        return [f"array frame with inferred period resolution: round trip differs; first difference {diff}"]
+    return []
+
+
 def directed_probes(ctx, tmp):
     """fixed findings F8 / F12 / F15 (a recurrence is a VIOLATION) and known findings G1-G4."""
     from bermuda import Metadata, Triangle
@@ -792,10 +851,28 @@ def directed_probes(ctx, tmp):
     t = Triangle([mkc(*P, D(2020, 3, 31), {"paid_loss": 1.0}, Metadata(country="NA")),
                   mkc(*P, D(2020, 3, 31), {"paid_loss": 2.0}, Metadata(country=None))])
     probes.append(("G4", t, "csv", {"kind": "csv_na_token_string"}))
+    t = Triangle([mkc(D(2003, 4, 1), D(2003, 6, 30), D(2003, 6, 30), {"paid_loss": 1.0}),
+                  mkc(D(2003, 7, 1), D(2003, 9, 30), D(2003, 9, 30), {"paid_loss": 2.0})])
+    probes.append(("G5", t, "array-default", {"kind": "array_inferred_period_resolution"}))
+    t = Triangle([mkc(D(2020, 2, 1), D(2020, 2, 29), D(2020, 2, 29), {"paid_loss": 1.0}),
+                  mkc(D(2020, 3, 1), D(2020, 3, 31), D(2020, 3, 31), {"paid_loss": 2.0})])
+    probes.append(("G5/monthly", t, "array-default", {"kind": "array_inferred_period_resolution"}))
+    cs = []
+    for s_ in (600, 601):
+        prev = ms(s_) - datetime.timedelta(days=1)
+        for lag in (0, 3, 6):
+            cs.append(mkc(ms(s_), me(s_), me(s_ + lag), {"paid_loss": 1.0 + lag}, prev=prev))
+            prev = me(s_ + lag)
+    probes.append(("G6", Triangle(cs), "matrix", {"kind": "matrix_incremental_prev_from_empty_column"}))
     n = 0
     for name, t, how, cls in probes:
         n += 1
-        probs = csv_roundtrip_problems(t, tmp, "probe_" + re.sub(r"\W", "_", name)) if how == "csv" else matrix_roundtrip_problems(t)
+        if how == "csv":
+            probs = csv_roundtrip_problems(t, tmp, "probe_" + re.sub(r"\W", "_", name))
+        elif how == "array-default":
+            probs = array_default_problems(t)
+        else:
+            probs = matrix_roundtrip_problems(t)
         ctx.hist("probe:" + name.split("/")[0])
         if probs:
             ctx.violation("impl-violation", f"[{name}] {probs[0]}",
@@ -874,12 +951,12 @@ def run(ctx):
         f.unlink()
     if not gen_ok:
         # keep the correspondence alive with the committed snapshot of the description (detection only)
-        exp = COQ / "GenExpected" / "GenFrame.v"
+        exp = COQ / "GenProps" / "C14_GenFrameExpected.v"
         gen = exp.read_text() if exp.exists() else None
     spec_ok = False
     if gen is not None:
         (ctx.build / "GenFrame.v").write_text(gen)
-        exp = COQ / "GenExpected" / "GenFrame.v"
+        exp = COQ / "GenProps" / "C14_GenFrameExpected.v"
         if gen_ok and exp.exists() and exp.read_text() != gen:
             import difflib
 
@@ -912,8 +989,7 @@ def run(ctx):
     py_fail = []
 
     def note_problems(kind, t, info, problems):
-        for p in problems[:1]:
-            py_fail.append((kind, t, info, problems))
+        py_fail.append((kind, t, info, problems))
 
     k = 0
     while len(recsF) < nF and k < nF * 3:
@@ -994,6 +1070,8 @@ def run(ctx):
             for code in fails:
                 ci, chk = divmod(code, 100)
                 corr_fail.append((kind, meta[ci], names[chk], chk))
+                if len(corr_fail) < 40:
+                    ctx.log(f"  corr fail {f.name} case {ci} check {chk} ({names[chk]}) info={meta[ci][1]}")
         ctx.obligation("correspondence model vs implementation (tables, cells, matrices) inside Coq",
                        not corr_fail, repr([(a, c) for a, _, c, _ in corr_fail[:6]]))
         ctx.log(f"coq correspondence: {len(files)} files, {len(corr_fail)} failing checks")
@@ -1007,11 +1085,14 @@ def run(ctx):
     # ---------------------------------------------------------------- 4. directed probes + verdicts
     directed_probes(ctx, tmp)
     reported = 0
-    for kind, t, info, problems in py_fail[:5]:
+    for kind, t, info, problems in py_fail:
+        cls = info.get("class") if isinstance(info.get("class"), dict) else None
+        if cls is None and reported >= 5:
+            continue
         ctx.violation("impl-violation", f"{kind} round trip on the implementation: {problems[0]}",
                       {"kind": {"frame": "csv", "array": "array", "matrix": "matrix"}[kind], "info": info,
-                       "triangle": tri_to_data(t), "problems": problems[:5]}, found_input=True)
-        reported += 1
+                       "triangle": tri_to_data(t), "problems": problems[:5]}, found_input=True, finding_class=cls)
+        reported += cls is None
     if corr_fail and not py_fail:
         real = [x for x in ctx.violations if x["found_input"]]
         if not real:
@@ -1039,6 +1120,8 @@ def replay(ctx, data):
     kind = data.get("kind", "csv")
     if kind == "matrix":
         probs = matrix_roundtrip_problems(t)
+    elif kind == "array-default":
+        probs = array_default_problems(t)
     elif kind == "array":
         _, _, _, arr, _ = B()
         f = t.fields[0]
